@@ -158,6 +158,27 @@ func (b *vpCS) stem(tag string, vertical bool) {
 	}
 }
 
+// stem3: three stems of one direction in one command (hstem3 = 12 2, vstem3 = 12 1)
+func (b *vpCS) stem3(tag string, vertical bool) {
+	var v [6]int64
+	for i := range v {
+		v[i] = b.sym(tag + "." + vpDigitS(i))
+	}
+	base := b.lsby
+	if vertical {
+		base = b.lsbx
+		b.op(12, 1)
+	} else {
+		b.op(12, 2)
+	}
+	stems := []int64{base + v[0], base + v[0] + v[1], base + v[2], base + v[2] + v[3], base + v[4], base + v[4] + v[5]}
+	if vertical {
+		b.vstem = append(b.vstem, stems...)
+	} else {
+		b.hstem = append(b.hstem, stems...)
+	}
+}
+
 func (b *vpCS) endchar() {
 	b.op(14)
 }
@@ -202,13 +223,13 @@ func (b *vpCS) check(g *Glyph, err error) {
 // C06 K1: the real charstring decoder against the glyph the Type 1 book prescribes, on command
 // templates with symbolic operands: side bearings (hsbw/sbw), every move/line/curve variant, flex
 // placed after a move, a line or a curve, stems relative to the side bearing, subroutine calls,
-// hint replacement, dotsection, div.
+// hint replacement, dotsection, hstem3/vstem3, the longer number forms, div.
 func VP_C06_templates() {
 	vpUnwind(800)
 	vpAllocLimit(1 << 20)
 	b := &vpCS{}
 	info := &decodeInfo{}
-	tmpl := vpChoose("template", vpParam("TEMPLATES", 9))
+	tmpl := vpChoose("template", vpParam("TEMPLATES", 10))
 	switch tmpl {
 	case 0: // all variants of move/line/curve in one contour
 		b.hsbw("h")
@@ -292,6 +313,17 @@ func VP_C06_templates() {
 		b.op(6) // hlineto
 		b.x += int64(v3)
 		b.emit(OpLineTo, b.x, b.y)
+		b.closepath()
+	case 8: // hstem3 / vstem3 (not mixed with other stems of the same direction)
+		b.sbw("s")
+		b.stem3("h3", false)
+		if vpChoose("both", 2) == 1 {
+			b.stem3("v3", true)
+		} else {
+			b.stem("vs", true)
+		}
+		b.moveto("m", 0)
+		b.lineto("l", 2)
 		b.closepath()
 	default: // div: a coordinate written as quotient of integers (exact here)
 		b.hsbw("h")
